@@ -30,6 +30,7 @@ type Case struct {
 	AckEvery   int            `json:"ack_every"`    // cumulative ACK every n-th in-order segment (1 or 2)
 	Lost       []int          `json:"lost"`         // indices of segments whose first transmission the peer pretends not to receive
 	WndJitter  bool           `json:"wnd_jitter"`   // the peer changes its window on every other duplicate ACK (those must not count)
+	DupData    bool           `json:"dup_data"`     // every other duplicate ACK carries a byte of the peer's own data (such an ACK is not a duplicate)
 	SACKBlocks bool           `json:"sack_blocks"`  // duplicate ACKs carry SACK blocks for what was received out of order
 	SilentAt   int            `json:"silent_at"`    // after this many segments were received in order the peer goes silent (-1: never)
 	Timeouts   int            `json:"timeouts"`     // number of timeouts to watch while silent
@@ -115,10 +116,15 @@ func runOnce(c Case) *evid.Failure {
 				}
 			}
 		}
-		dup := haveLastAck && ackOff == lastAckVal && wnd == lastWnd
+		if c.DupData && forceDup && len(acks)%2 == 0 {
+			seg.Payload = []byte{byte(len(acks))}
+			seg.Flags |= codec.PSH
+		}
+		dup := haveLastAck && ackOff == lastAckVal && wnd == lastWnd && len(seg.Payload) == 0
 		acks = append(acks, ackRec{time.Now(), ackOff, dup})
 		lastAckVal, lastWnd, haveLastAck = ackOff, wnd, true
 		p.Send(seg)
+		p.SndNxt += uint32(len(seg.Payload))
 		nDataInjected++
 	}
 	maxAckBefore := func(t time.Time) (uint32, int) {
@@ -336,10 +342,10 @@ func runOnce(c Case) *evid.Failure {
 			firstAckSent = true
 			// (c) third pure duplicate: the missing segment must be retransmitted promptly
 			ndup := 0
-			for i := len(acks) - 1; i >= 0 && acks[i].ack == uint32(edge*payload); i-- {
-				if acks[i].dup {
-					ndup++
-				}
+			// duplicates count only without intervening segments (RFC 5681): an ACK that
+			// carries data or changes the window resets the count
+			for i := len(acks) - 1; i >= 0 && acks[i].ack == uint32(edge*payload) && acks[i].dup; i-- {
+				ndup++
 			}
 			if ndup == 3 && !fastRtxChecked && timeoutsSeen == 0 && silenceDone == (c.SilentAt < 0) {
 				fastRtxChecked = true
@@ -451,6 +457,7 @@ func genCase(rt *rapid.T) Case {
 	c.AckEvery = rapid.IntRange(1, 2).Draw(rt, "ack_every")
 	c.WndJitter = rapid.IntRange(0, 4).Draw(rt, "wnd_jitter") == 0
 	c.SACKBlocks = rapid.Bool().Draw(rt, "sack_blocks")
+	c.DupData = rapid.IntRange(0, 4).Draw(rt, "dup_data") == 0
 	mode := rapid.SampledFrom([]string{"loss", "loss", "silence", "silence", "both"}).Draw(rt, "mode")
 	c.SilentAt = -1
 	if mode != "silence" {
